@@ -79,7 +79,7 @@ func CorpusC13(seed int64, tier string) []*Case {
 					isCasing = true
 				}
 			}
-			if !isCasing || (i+int(seed))%3 == 0 {
+			if !isCasing || (i+int(seed))%3 == 0 || strings.ContainsAny(n, "0123456789") {
 				sub = append(sub, n)
 			}
 		}
